@@ -2,7 +2,12 @@
 Tie: a helper controller process brings a sandbox to a named point (idle, program running with sync before / after
 exec, inside the sync callback, after a call that left descendants, during file operations, while the init runs its
 InitCommand, a traced program with forked descendants that ignore every signal), announces it and is SIGKILLed there
-(plus uniformly random delays); within 3 s neither the init nor any process carrying the run's token may exist."""
+(plus uniformly random delays); within 3 s neither the init nor any process carrying the run's token may exist.
+File operations as a class of their own (run_fileops): containers with and without a credential generator (default and explicit
+ids inside) x what a previous program left in the writable directories (named pipes without a peer, links to them, link loops,
+directories, sockets, unreadable files, thousands of files, deep chains) x earlier operations x one Open / Delete / Symlink / Reset,
+the controller killed when the init has logged the receipt of the command or when the host is about to send it (harness/cmd/h_c16/fileops.go);
+within 6 s the init and every process of the container must be gone."""
 import json
 import os
 import signal
@@ -12,7 +17,8 @@ import time
 FINISH = dict(level="proof", rule=(
     "crash points: idle / exec_running / exec_running_after / in_sync / after_exec_returned / file_ops / init_command / "
     "ptrace_running / ptrace_in_sync / forkexec_in_sync / ns_in_sync (the launcher dies inside the sync callback), each with the kill delivered 0..200 ms after the announcement; programs are process trees of 8 tasks (fork, fork of fork, and one vfork+exec descendant) "
-    "that ignore all signals.  Non-trivial: every crash point with a live program; distinct = distinct (point, delay)."))
+    "that ignore all signals.  File-operation crash points: 3 container configurations (no credential generator / generator with default ids / generator with explicit ids) x 14 histories "
+    "(objects planted by a previous program, earlier operations, one operation of Open / Delete / Symlink / Reset, or a program started after them), killed at the init's receipt of the command or at the host's send.  Non-trivial: every crash point with a live program; distinct = distinct (point, delay)."))
 
 # steps of the tracer at which the controller is killed (n-th debug message of the tracer containing the text)
 STEPS = ["ptrace stopped#1", "------#2", "ptrace stopped#2", "------#3", "ptrace stop exec#1", "------#4", "------#6", "ptrace stop fork#1", "ptrace stop fork#3"]
@@ -42,6 +48,186 @@ def alive(pid):
     except OSError:
         return False
     return ") Z" not in st and ") X" not in st
+
+
+# ---- crash points "during a file operation": container configurations x objects planted by the previous program x operations
+O_RD, O_WR, O_RDWR = os.O_RDONLY, os.O_WRONLY, os.O_RDWR
+O_OUT = os.O_WRONLY | os.O_CREAT | os.O_TRUNC          # how a host opens an output file of the program
+FILEOP_WAIT_S = 6.0
+
+CONFIGS = {
+    # the container's programs run under the ids of the controller (one-line id maps, no credential generator)
+    "plain": dict(cred=False),
+    # the Builder has a credential generator: programs run under ids of their own, the init keeps id 0 of the user namespace
+    "cred": dict(cred=True, host_uid=10000, host_gid=10000, cuid=0, cgid=0),
+    "cred_ids": dict(cred=True, host_uid=23456, host_gid=34567, cuid=2000, cgid=3000),
+}
+
+
+def _open(*items):
+    return {"kind": "open", "items": [dict(path=p, flag=f, perm=0o644, mkdirall=bool(m)) for p, f, *m in items]}
+
+
+def fileop_histories():
+    """(name, what the previous program planted [arguments of `probe_target plant`], earlier operations, the operation, then)"""
+    fifo = lambda p: ["fifo", p, "-"]
+    H = []
+    # a named pipe without a peer where the host expects a file of the program
+    H.append(("open_fifo_read", fifo("/w/out"), [], _open(("/w/out", O_RD)), ""))
+    H.append(("open_fifo_write", fifo("/w/result.txt"), [], _open(("/w/result.txt", O_WR)), ""))
+    H.append(("open_fifo_as_output_after_regular", fifo("/w/out"), [_open(("/w/ok", O_OUT))], _open(("/w/out", O_OUT)), ""))
+    H.append(("open_fifo_in_tmp_rdwr", fifo("/tmp/p"), [{"kind": "ping"}], _open(("/tmp/p", O_RDWR)), ""))
+    H.append(("open_fifo_below_planted_dir", ["dir", "/w/sub", "-", "dir", "/w/sub/a", "-", "fifo", "/w/sub/a/out", "-"], [],
+              _open(("/w/sub/a/out", O_RD, True)), ""))
+    H.append(("open_link_to_fifo", fifo("/w/pipe") + ["sym", "/w/out", "/w/pipe"], [], _open(("/w/out", O_RD)), ""))
+    H.append(("open_link_loop", ["sym", "/w/l1", "/w/l2", "sym", "/w/l2", "/w/l1"], [], _open(("/w/l1", O_RD)), ""))
+    # one batch over everything a program can leave behind, the pipe in the middle
+    H.append(("open_batch_mixed", ["reg", "/w/a", "data", "fifo", "/w/out", "-", "dir", "/w/dd", "-", "sock", "/w/s", "-", "sym", "/w/dangling", "/w/nowhere",
+                                   "reg", "/w/secret", "x", "chmod", "/w/secret", "000"], [],
+              _open(("/w/a", O_RD), ("/w/missing", O_RD), ("/w/out", O_RD), ("/w/dd", O_RD), ("/w/s", O_RDWR), ("/w/dangling", O_OUT), ("/w/secret", O_RD), ("/w/new", O_OUT)), ""))
+    # operations that take a while: the kill falls inside them on every tree
+    H.append(("open_batch_200", ["many", "/w", "200"], [], _open(*[("/w/f%d" % i, O_RD) for i in range(200)]), ""))
+    H.append(("reset_many", ["many", "/w", "2500", "fifo", "/w/out", "-", "dir", "/tmp/t", "-", "deep", "/tmp/t", "150", "sock", "/tmp/s", "-"], [], {"kind": "reset"}, ""))
+    H.append(("delete_fifo", fifo("/w/out"), [_open(("/w/ok", O_OUT))], {"kind": "delete", "path": "/w/out"}, ""))
+    H.append(("delete_nonempty_dir", ["dir", "/w/d", "-", "fifo", "/w/d/p", "-"], [], {"kind": "delete", "path": "/w/d"}, ""))
+    H.append(("symlink_over_fifo", fifo("/w/out"), [], {"kind": "symlink", "links": [{"target": "/w/elsewhere", "link": "/w/out"}, {"target": "/w/out", "link": "/w/in"}]}, ""))
+    # file operations first, the kill while the next program (signal-ignoring tree) runs
+    H.append(("program_running_after_file_operations", ["reg", "/w/a", "data", "dir", "/w/dd", "-"],
+              [_open(("/w/a", O_RD), ("/w/dd", O_RD)), {"kind": "delete", "path": "/w/a"}], _open(("/w/b", O_OUT)), "exec_running"))
+    return H
+
+
+def thread_states(pid):
+    """what the threads of a surviving process wait in (for the replay)"""
+    out = {}
+    try:
+        for t in sorted(os.listdir("/proc/%d/task" % pid), key=int)[:16]:
+            try:
+                st = open("/proc/%d/task/%s/stat" % (pid, t)).read()
+                state = st[st.rindex(")") + 2]
+                try:
+                    w = open("/proc/%d/task/%s/wchan" % (pid, t)).read().strip()
+                except OSError:
+                    w = "?"
+                out[t] = state + " " + w
+            except (OSError, ValueError):
+                pass
+        for l in open("/proc/%d/status" % pid):
+            if l.startswith(("Uid:", "Gid:", "PPid:")):
+                out[l.split(":")[0]] = " ".join(l.split()[1:])
+    except OSError:
+        pass
+    return out
+
+
+def read_announce(p, timeout):
+    """first JSON line of the controller's stdout (None if it does not come), everything read so far"""
+    buf = b""
+    t0 = time.time()
+    os.set_blocking(p.stdout.fileno(), False)
+    has = lambda b: any(l.startswith(b"{") for l in b.split(b"\n")[:-1])
+    while time.time() - t0 < timeout and not has(buf):
+        try:
+            ch = p.stdout.read(4096)
+        except BlockingIOError:
+            ch = None
+        if ch:
+            buf += ch
+        else:
+            time.sleep(0.002)
+    if not has(buf):
+        return None, buf
+    return json.loads([l for l in buf.decode().splitlines() if l.startswith("{")][0]), buf
+
+
+def run_fileops(c, exe, scratch):
+    r = c.rng("fileops")
+    hist = fileop_histories()
+    plan = []
+    for ci, cfg in enumerate(CONFIGS):
+        for hi, h in enumerate(hist):
+            if c.quick():
+                # every (configuration, history) once; the kill alternates between "the init has the command" and "the host is about to send it"
+                plan.append((cfg, h, "recv" if (ci + hi) % 3 else "send", [0.0, 0.03, 0.0, 0.3][(ci + 2 * hi) % 4]))
+            else:
+                for when in ("recv", "send"):
+                    for d in (0.0, 0.005, 0.05, 0.3, r.random() * 0.2):
+                        plan.append((cfg, h, when, d))
+    def one(k):
+        """brings one controller to its crash point, kills it and watches what is left; no bookkeeping here (runs in a worker thread)"""
+        cfg, (name, plant, prior, op, then), when, d = plan[k]
+        token = "tokf%d_%d_%d" % (os.getpid(), c.seed, k)
+        spec = dict(CONFIGS[cfg], plant=plant, prior=prior, op=op, when=when, then=then)
+        res = {"pt": "fileop:%s:%s" % (cfg, name), "cfg": cfg, "when": when, "d": d, "then": then}
+        res["history"] = {"container": dict(CONFIGS[cfg], name=cfg), "planted_by_previous_program": plant, "earlier_operations": prior, "operation": op, "then": then,
+                          "kill": "%d ms after %s" % (int(d * 1000), "the next program was reported running" if then else
+                                                      "the init logged the receipt of the command" if when == "recv" else "the controller announced the call")}
+        p = subprocess.Popen([exe, "fileop", token, scratch, json.dumps(spec)], stdout=subprocess.PIPE, stderr=subprocess.DEVNULL)
+        ann, buf = read_announce(p, 60)
+        res["ann"] = ann
+        if ann is None or "err" in ann:
+            p.kill()
+            p.wait()
+            return res
+        time.sleep(d)
+        init = ann["init"]
+        res["init_before"] = alive(init)
+        before = [q for q in procs_with(token) if q != p.pid]
+        os.kill(p.pid, signal.SIGKILL)
+        p.wait()
+        try:
+            os.set_blocking(p.stdout.fileno(), True)
+            buf += p.stdout.read() or b""
+        except OSError:
+            pass
+        res["returned"] = [json.loads(l) for l in buf.decode(errors="replace").splitlines() if l.startswith('{"op_returned"')]
+        t_kill = time.time()
+        left, init_alive = before, res["init_before"]
+        while time.time() - t_kill < FILEOP_WAIT_S:
+            left = procs_with(token)
+            init_alive = alive(init)
+            if not left and not init_alive:
+                break
+            time.sleep(0.02)
+        res.update(before=before, left=left, init_alive=init_alive, took=time.time() - t_kill,
+                   threads=thread_states(init) if init_alive else {})
+        for q in left + ([init] if init_alive else []):
+            try:
+                os.kill(q, signal.SIGKILL)
+            except OSError:
+                pass
+        return res
+
+    # the controllers are independent processes with their own containers: four at a time
+    from concurrent.futures import ThreadPoolExecutor
+    with ThreadPoolExecutor(max_workers=4) as pool:
+        results = list(pool.map(one, range(len(plan))))
+    for res in results:
+        pt, cfg, when, d, then, ann, history = res["pt"], res["cfg"], res["when"], res["d"], res["then"], res["ann"], res["history"]
+        canon = lambda what, **kw: dict({"kind": "controller-death", "what": what, "point": pt, "delay_ms": int(d * 1000)}, **kw)
+        if ann is None:
+            c.finding_or_violation(canon("the helper controller did not reach the crash point (harness)"), {"history": history})
+            continue
+        if "err" in ann:
+            raise RuntimeError("controller (%s): %s" % (pt, ann["err"]))
+        init, before, left, init_alive, took, returned = ann["init"], res["before"], res["left"], res["init_alive"], res["took"], res["returned"]
+        c.count((pt, when, round(d, 3)), nontrivial=res["init_before"] and (not then or bool(before)), klass="fileop:" + cfg)
+        if not res["init_before"]:
+            c.finding_or_violation(canon("the container init was not alive at the crash point (harness)"), {"announce": ann, "history": history})
+        elif then and not before:
+            c.finding_or_violation(canon("no sandboxed process was alive at the crash point (harness)"), {"announce": ann, "history": history})
+        if left or init_alive:
+            c.finding_or_violation(
+                canon("sandboxed processes survive the controller", survivors=len(left), init_alive=init_alive),
+                {"history": history, "announce": ann,
+                 "operation_returned_before_the_kill": returned[0] if returned else False,
+                 "expected": "the container init (pid %d) and every process of the container are gone within %.0f s of the SIGKILL of the controller" % (init, FILEOP_WAIT_S),
+                 "observed": "%.1f s after the kill: init %s, %d sandboxed processes alive" % (took, "ALIVE" if init_alive else "gone", len(left)),
+                 "init_threads_wait_in": res["threads"], "survivor_pids": left[:10]},
+                klass="survive:fileop:" + cfg)
+        c.sample({"point": pt, "kill": history["kill"], "operation_returned_before_the_kill": bool(returned), "all_gone_after_s": round(took, 2)}, limit=8)
+    c.cov["fileop_crash_points"] = len(plan)
+    return len(plan)
 
 
 def run(c):
@@ -102,6 +288,13 @@ def run(c):
             raise RuntimeError("controller: " + ann["err"])
         time.sleep(d)
         before = [q for q in procs_with(token) if q != p.pid]
+        # these helpers announce a fixed time after the start of the program; on a loaded machine the program may not be up by then,
+        # and the crash point is "while the program runs": wait for it (seen as a false "no sandboxed process was alive" at load 40)
+        if not before and pt in ("exec_running", "exec_running_after", "init_command", "ptrace_running", "ptrace_noseccomp_running"):
+            t1 = time.time()
+            while not before and time.time() - t1 < 10:
+                time.sleep(0.02)
+                before = [q for q in procs_with(token) if q != p.pid]
         # held at the sync point the child has not exec'ed the target yet: it is known by its pid only
         if pt.endswith("in_sync") and ann.get("pid") and alive(ann["pid"]):
             before.append(ann["pid"])
@@ -132,6 +325,9 @@ def run(c):
         if pt.startswith("ptrace_step"):
             step_obs.append((STEP_NUM.get(pt.split(":", 1)[1], 4), not (left or init_alive), pt, d))
         c.sample({"point": pt, "delay_ms": int(d * 1000), "processes_at_kill": len(before), "all_gone_after_s": round(took, 2)})
+    t_f = time.time()
+    n_fileops = run_fileops(c, exe, scratch)
+    c.log("file-operation crash points: %d in %.1f s" % (n_fileops, time.time() - t_f))
     # the tracer-step runs against the launch model (child || tracer || kernel rules for a dead tracer), evaluated in Coq
     from vlib import coq_list
     body = ("From Coq Require Import List.\nImport ListNotations.\nFrom GS Require Import Tracer.LaunchDeath.\n"
@@ -146,6 +342,6 @@ def run(c):
         c.cov["disagreement_samples"] = dis[:5]
         if not c.violations:
             c.violation({"kind": "correspondence-broken", "theorems_no_longer_about_the_code": c.theorems, "disagreements": dis[:10]}, no_input=True)
-    c.cov["crash_points"] = len(plan)
+    c.cov["crash_points"] = len(plan) + n_fileops
     c.cov["states"] = 3252
-    c.cov["traces_validated_against_impl"] = len(plan)
+    c.cov["traces_validated_against_impl"] = len(plan) + n_fileops
